@@ -204,6 +204,12 @@ def _compare_sg(case, ss, os_, rec=None):
                 raise Violation("C11/op-changed/wiring", "operator %d (%s): operand %d rewired '%s' -> '%s'" % (k, label, pos, ta["name"], tb["name"]), case)
             elif _tensor_sig(ta) != _tensor_sig(tb):
                 raise Violation("C11/op-changed/operand-tensor", "operator %d (%s): operand %d '%s' %s -> %s" % (k, label, pos, ta["name"], _tensor_sig(ta), _tensor_sig(tb)), case)
+        # intermediates (the LSTM's scratch tensors: their quantisation parameters are part of the operator's definition)
+        if len(so.get("intermediates", [])) != len(oo.get("intermediates", [])):
+            raise Violation("C11/op-changed/intermediates", "operator %d (%s): %d intermediates -> %d" % (k, label, len(so.get("intermediates", [])), len(oo.get("intermediates", []))), case)
+        for pos, (a, b) in enumerate(zip(so.get("intermediates", []), oo.get("intermediates", []))):
+            if _tensor_sig(st[a]) != _tensor_sig(ot[b]):
+                raise Violation("C11/op-changed/intermediates", "operator %d (%s): intermediate %d %s -> %s" % (k, label, pos, _tensor_sig(st[a]), _tensor_sig(ot[b])), case)
         for a, b in zip(so["outputs"], oo["outputs"]):
             if _tensor_sig(st[a]) != _tensor_sig(ot[b]):
                 raise Violation("C11/op-changed/result-tensor", "operator %d (%s): result '%s' %s -> %s" % (k, label, st[a]["name"], _tensor_sig(st[a]), _tensor_sig(ot[b])), case)
